@@ -1037,8 +1037,13 @@ class Gen(object):
         k, _ = self.pick(self.is_real, prefer=lambda o: o.n_word <= 24)
         if k is None:
             return self.g_new()
-        f = self.rng.choice(['negative', 'absolute', 'square', 'floor', 'sign', 'mean', 'std', 'var'])
+        f = self.rng.choice(['negative', 'absolute', 'square', 'floor', 'sign', 'mean', 'std', 'var',
+                             'maximum', 'minimum', 'fmod'])
         op = {'op': 'npfunc', 'slot': k, 'f': f}
+        if f in ('maximum', 'minimum', 'fmod'):
+            kb, _ = self.pick(self.is_real, prefer=lambda o: o.n_word <= 24)
+            op['b'] = kb if kb is not None else k
+            op['swap'] = self.rng.random() < 0.5
         if f in ('mean', 'std', 'var') and self.rng.random() < 0.6:
             op['route'] = 'method'
         return op
